@@ -48,3 +48,13 @@ func (b *Buf) Read(p []byte) (int, error) {
 
 // Reader returns a fresh reader over the bytes written so far (optionally cut at limit).
 func (b *Buf) Reader(limit int) *Buf { return &Buf{B: b.B, Limit: limit} }
+
+// ReaderAtCell is Reader for text files in which the engine represents every number of the body as one
+// opaque token cell: `cell` counts cells (header bytes, separators and whole numbers). The native flavour
+// converts it to the byte offset of that cell boundary (headerBytes leading bytes are one cell each).
+func (b *Buf) ReaderAtCell(cell int, headerBytes int) *Buf {
+	return &Buf{B: b.B, Limit: cellCut(b.B, cell, headerBytes)}
+}
+
+// CellCount is the number of cells of the buffer (see ReaderAtCell).
+func CellCount(b *Buf, headerBytes int) int { return cellCount(b.B, headerBytes) }
